@@ -60,7 +60,7 @@ def _task(args):
 
 
 def save_failure(prop, f):
-    d = os.path.join(HOME, "replay_out", prop)
+    d = os.path.join(os.environ.get("VERIF_REPLAY_OUT") or os.path.join(HOME, "replay_out"), prop)
     os.makedirs(d, exist_ok=True)
     blob = json.dumps(f, sort_keys=True, allow_nan=True)
     name = f["body"].replace(".", "_").replace("/", "_") + "-" + hashlib.sha1(blob.encode()).hexdigest()[:8] + ".json"
@@ -290,8 +290,9 @@ def main(argv=None):
     }
     if harness_errors:
         evidence["coverage"]["harness_errors"] = [h[:1000] for h in harness_errors]
-    os.makedirs(os.path.join(HOME, "evidence"), exist_ok=True)
-    with open(os.path.join(HOME, "evidence", f"{prop}.json"), "w") as fh:
+    evdir = os.environ.get("VERIF_EVIDENCE_DIR") or os.path.join(HOME, "evidence")
+    os.makedirs(evdir, exist_ok=True)
+    with open(os.path.join(evdir, f"{prop}.json"), "w") as fh:
         json.dump(evidence, fh, indent=1, sort_keys=False, allow_nan=False, default=str)
         fh.write("\n")
 
